@@ -150,3 +150,17 @@ Theorem C08_TRANSL_Line2_Degenerate : forall (O : Ops) (l : V2 O * V2 O) (tol : 
     RenderExpr.rg_sdf_Line2_Degenerate l tol = Interp.line2_degenerate l tol.
 Proof. exact (@GenEqRender.Line2_Degenerate_eq). Qed.
 Print Assumptions C08_TRANSL_Line2_Degenerate.
+
+(* ---- inventory of mutable state (DESIGN.md 2.3).  The models above are functions of their arguments; they are
+   faithful only as long as the code keeps no state between calls beyond what they mention.  The package-level
+   variables and struct fields in the scope of C08 (and which of them are written outside construction, from which
+   entry points) are regenerated from the current source on every run (harness/stategen -> Generated/StateInv.v)
+   and contain no state beyond the expected, reviewed inventory of Sys/StateInvSpec.v, where every piece of state
+   that legitimately exists names the model component that accounts for it.  Breaks when a written package-level
+   variable, a struct field, or a write of a field outside its constructor is added in scope (coqc then prints the
+   differences); tolerates moved declarations, reordered fields, renamed locals, new helpers / constants / tables
+   nothing writes. *)
+From Sdfx Require Sys.StateInvSpec Sys.StateInvC08.
+Theorem C08_state_inventory : Sdfx.Sys.StateInvSpec.state_ok_C08 = true.
+Proof. exact Sdfx.Sys.StateInvC08.C08_state_inventory. Qed.
+Print Assumptions C08_state_inventory.
